@@ -149,6 +149,8 @@ def monitor_case(case, obs, rerun=IC.run_case):
         if oc["kind"] != "raised" or oc.get("failure"):
             fails.append(("c19:outcome-from-truncated-stream:%s" % op,
                           "%s reported %s although the response stream ended early" % (op, outcome_class(oc))))
+        elif (case.get("chunk") or {}).get("raise_after") is not None:
+            pass        # the transport itself failed: its exception (time-out, reset) is what the caller must see
         elif oc["exc"] not in ("EOFError", "RequestLengthMismatch"):
             fails.append(("c19:truncated-stream-wrong-error:%s" % oc["exc"],
                           "stream ended early; the client raised %s: %s" % (oc["exc"], oc.get("text"))))
@@ -254,7 +256,11 @@ def gen_frames_case(rng):
         body = bytes(rng.getrandbits(8) for _ in range(n))
         msgs.append((bytes.fromhex("42007b01") + n.to_bytes(4, "big") + body).hex())
     cls = rng.choice(["whole", "whole", "truncated", "early-close"])
-    return {"frames": True, "messages": msgs, "chunk": G.gen_chunk(rng, cls), "reads": len(msgs) + 1}
+    ch = G.gen_chunk(rng, cls)
+    if "raise_after" in ch:                 # pure framing cases keep the modelled ways a stream ends
+        ch["empty_after"] = ch.pop("raise_after")
+        ch.pop("raise", None)
+    return {"frames": True, "messages": msgs, "chunk": ch, "reads": len(msgs) + 1}
 
 
 def run_frames_case(case):
@@ -320,6 +326,8 @@ def model_line(case, obs):
     resp = case["resp"]
     if obs.get("harness_error") or not obs["emitted"] or resp.get("items", 1) != 1:
         return None
+    if (case.get("chunk") or {}).get("raise_after") is not None:
+        return None             # a recv() that raises is outside the receive-loop model (which knows pieces and end of stream)
     if resp.get("corrupt"):
         if not independently_undecodable(case, obs):
             return None
